@@ -52,3 +52,5 @@ func Undecodable(r *http.Request) bool { panic("ghost") }
 //@ ensures err == nil ==> header != nil
 //@ modifies fresh
 //@ end
+
+//@ commute Parse loop 0: assumed: each file is injected at the variable paths named for it; two files addressing the same cell make the request fail whichever comes first
